@@ -11,6 +11,22 @@ E2 = "stateless model checking: exhaustive DFS of the choice tree of RNG answers
 E3 = "explicit-state BFS over operation histories of the real object, reference-model comparison in every state"
 
 CHECKS = {
+    "C11": dict(
+        built=True,
+        category="exploration",
+        engine="E1",
+        technique=E1 + "; all small weighted digraphs and all grids with <=12 cells, simple-path/simple-cycle enumeration oracle",
+        text="Every digraph on 3 nodes over weights {absent,0,1,2} (+self loops), parallel-edge lists, 4-node graphs with <=4 arcs, "
+        "negative-weight families, each with every (source,target), goal as value/predicate, max_iter/max_cost limits, three consistent "
+        "heuristics and three label types, through dijkstra, astar, bfs, dfs, bellman_ford, floyd_warshall and the edge-list forms; "
+        "every obstacle layout of every grid with <=12 cells x every free start/goal pair x 4/8 directions x every admissible built-in "
+        "heuristic plus a terrain-cost family. Distances, INFEASIBLE/UNBOUNDED verdicts and path validity are compared with "
+        "brute-force enumeration.",
+        note="Trusts: simple-path / simple-cycle enumeration and fixpoint relaxation on grids. Bound: n <= 4, weights in {-2..2,5}, "
+        "<=12 cells. Readings fixed to avoid demanding more than the statement: max_cost beyond the true distance and MAX_ITER "
+        "under an explicit small max_iter are accepted.",
+        ref="2/C11",
+    ),
     "C15": dict(
         built=True,
         category="exploration",
